@@ -129,7 +129,9 @@ def run_history(lines, kinds, explicit_parser=False, all_argv=False):
 
 EXTRA_LINES = ["foo v -o 3", "foo --opt", "baz -h", "help", "help foo bar", "foo bar v", "foo bar", "-V", "baz w -vv", "baz --no-ansi w",
                "help help", "foo v w", "baz -q x", "help -h", "foo -- a b", "baz a b c d", "nope nope", "-x", "help baz --bogus",
-               "help foo v --bogus", "--help --bogus", "baz --help --bogus"]
+               "help foo v --bogus", "--help --bogus", "baz --help --bogus",
+               # a switch of one run (debug verbosity, decoration, interaction) is a matter of that run only
+               "baz w -vvv", "foo v -vvv", "baz -v", "baz --ansi w", "foo v -n", "baz -vvv a b", "nope -vvv"]
 
 
 def run(ctx):
